@@ -15,6 +15,12 @@ fn main() {
         ("c14", Some(p)) => m3::replay(&args, p),
         ("c01", None) => m5::run_c01(&args),
         ("c01", Some(p)) => m5::replay(&args, "C01", p),
+        ("c12", None) => m5::run_c12(&args),
+        ("c13", None) => m5::run_c13(&args),
+        ("c16", None) => m5::run_c16(&args),
+        ("c12", Some(p)) => m5::replay(&args, "C12", p),
+        ("c13", Some(p)) => m5::replay(&args, "C13", p),
+        ("c16", Some(p)) => m5::replay(&args, "C16", p),
         (other, _) => {
             eprintln!("unknown command {other}");
             std::process::exit(2);
